@@ -43,17 +43,18 @@ META = {
     "design_ref": "5.1 C05",
 }
 
-INVARIANTS = ["TypeOK", "Inv_Sync", "Inv_Prefix", "Inv_Exact", "Inv_NoPartial", "Inv_Eager", "Inv_Terminal"]
+INVARIANTS = ["TypeOK", "Inv_Sync", "Inv_Prefix", "Inv_Exact", "Inv_AllWatchers", "Inv_NoPartial", "Inv_Eager", "Inv_Terminal"]
 WITNESSES = ["Witness_PartialHeader", "Witness_PartialBody", "Witness_Pushed", "Witness_AllDone",
-             "Witness_PushOtherId", "Witness_PushMinId"]
+             "Witness_PushOtherId", "Witness_PushMinId", "Witness_RaisingWatcher"]
 
 
 ALL_IDS = (-1, -2, -128, -32768)     # -1 is what Cassandra uses; the protocol reserves every negative id for the server
 
 
 def _consts(vers, pos, neg, lo, hi, ids=(-1,)):
+    from harness.replay.framing import WATCHERS, RAISING
     return {"Vers": set(vers), "PosLens": set(pos), "NegLens": set(neg), "PushIds": set(-i for i in ids), "MinFrames": lo,
-            "MaxFrames": hi, "AbsHdr": 9}
+            "MaxFrames": hi, "AbsHdr": 9, "Watchers": set(WATCHERS), "Raising": set(RAISING)}
 
 
 def _frames_of(state):
